@@ -2,6 +2,7 @@ package rules
 
 import (
 	"fmt"
+	"go/token"
 	"go/types"
 	"math"
 	"strings"
@@ -15,12 +16,13 @@ func init() {
 	register(&Rule{
 		ID:    "C27",
 		Title: "Cross-shard pool cache never evicts immune items and keeps admitting",
-		Pkgs:  []string{"storage/immunitycache"},
+		Pkgs:  []string{"storage/immunitycache", "dataRetriever/shardedData"},
 		Explain: "Decides three structural conditions. (S1 keeps admitting) the per-chunk limits derived by getChunkConfig from any configuration accepted by CacheConfig.Verify are ≥ 1: the field bounds are " +
 			"extracted from the comparisons that dominate Verify's nil return and pushed through the derivation by interval evaluation (/, core.MaxUint32, ...); a limit of 0 makes a full chunk evict nothing " +
 			"and refuse every further item. (S2 never evicts immune items) every removeNoLock reached from eviction (removeOldestNoLock) is on the `isImmuneToEviction() == false` branch for the same element; " +
 			"removeNoLock has no other callers than eviction and the explicit RemoveItem. (S3 co-update) items / itemsAsList / numBytes change together: insertion = list PushBack + map insert + numBytes add, " +
 			"removal = map delete + list Remove + numBytes subtract, and nothing else writes them (the byte limit is enforced against numBytes). " +
+			"A full chunk refuses an item only as the outcome of the eviction walk (evictItemsNoLock); shardedData.ImmunizeSetOfDataAgainstEviction reaches cache.ImmunizeKeys on every return not decided by the keys argument alone. " +
 			"Not decided (value-level): eviction order, the arithmetic of the byte accounting.",
 		Run: runC27,
 	})
@@ -28,6 +30,7 @@ func init() {
 
 func runC27(c *core.Ctx) {
 	const pkg = "storage/immunitycache"
+	c27AdmissionAndImmunize(c)
 	// ---- S1
 	ver := anchorM(c, pkg, "CacheConfig", "Verify")
 	gcc := anchorM(c, pkg, "CacheConfig", "getChunkConfig")
@@ -270,4 +273,75 @@ func isPhiOf(v ssa.Value, x ssa.Value) bool {
 		}
 	}
 	return false
+}
+
+// c27AdmissionAndImmunize: (a) a full chunk refuses an item only after the eviction walk was
+// tried - every non-nil result of evictItemsIfCapacityExceededNoLock comes out of
+// evictItemsNoLock; (b) an immunize request reaches the cache whatever the cache id: every return
+// of shardedData.ImmunizeSetOfDataAgainstEviction lies behind ImmunizeKeys, except returns decided
+// by the `keys` argument alone.
+func c27AdmissionAndImmunize(c *core.Ctx) {
+	if fn := anchorM(c, "storage/immunitycache", "immunityChunk", "evictItemsIfCapacityExceededNoLock"); fn != nil {
+		c.Analysed(fname(fn))
+		isEvict := func(in ssa.Instruction) bool {
+			cc := core.CallOf(in)
+			return cc != nil && cc.StaticCallee() != nil && cc.StaticCallee().Name() == "evictItemsNoLock"
+		}
+		esc, path := core.PathQ{Fn: fn, Via: isEvict, Target: func(in ssa.Instruction, pred *ssa.BasicBlock) bool {
+			r, ok := in.(*ssa.Return)
+			if !ok {
+				return false
+			}
+			return !core.NilReturn(r, pred)
+		}}.Escape()
+		c.Check(esc == nil, "C27/refusal-only-after-eviction-walk", "immunityChunk.evictItemsIfCapacityExceededNoLock", fn.Pos(),
+			"an error (the item is refused) is returned only as the outcome of evictItemsNoLock",
+			"the chunk can refuse an item without having walked the eviction list ("+c.P.PathString(path)+"): a full chunk holding evictable items stops admitting new ones")
+	}
+	if fn := anchorM(c, "dataRetriever/shardedData", "shardedData", "ImmunizeSetOfDataAgainstEviction"); fn != nil {
+		c.Analysed(fname(fn))
+		var imm []ssa.Instruction
+		for _, in := range core.CallsIn(fn, func(in ssa.Instruction, cc *ssa.CallCommon) bool {
+			return cc.IsInvoke() && cc.Method.Name() == "ImmunizeKeys"
+		}) {
+			imm = append(imm, in)
+		}
+		n := 0
+		for _, r := range core.Returns(fn) {
+			n++
+			behind := false
+			for _, in := range imm {
+				if core.DominatesInstr(in, r) {
+					behind = true
+				}
+			}
+			if behind {
+				c.Pass("C27/immunize-reaches-the-cache", fmt.Sprintf("shardedData.ImmunizeSetOfDataAgainstEviction/return#%d", n), r.Pos(), "behind cache.ImmunizeKeys(keys)")
+				continue
+			}
+			onlyKeys := len(core.CondsAt(r.Block())) > 0
+			for _, cd := range core.CondsAt(r.Block()) {
+				for x := range core.BackwardReachPure(cd.V) {
+					switch t := x.(type) {
+					case *ssa.Parameter:
+						if t != fn.Params[1] {
+							onlyKeys = false
+						}
+					case *ssa.Call:
+						if !core.CallDesc(&t.Call).Is("builtin", "", "len") {
+							onlyKeys = false
+						}
+					case *ssa.UnOp:
+						if t.Op == token.MUL {
+							onlyKeys = false
+						}
+					}
+				}
+			}
+			c.Check(onlyKeys, "C27/immunize-reaches-the-cache", fmt.Sprintf("shardedData.ImmunizeSetOfDataAgainstEviction/return#%d", n), r.Pos(),
+				"returns without immunizing only for a reason that depends on the keys argument alone",
+				"returns without calling ImmunizeKeys for a reason other than the keys themselves (e.g. no store exists yet for the cache id): the request is dropped, and items that arrive later for those keys are evictable")
+		}
+		c.Floor("C27/immunize-reaches-the-cache", 1)
+	}
 }
